@@ -110,6 +110,16 @@ def build(run):
     cur_round = None
     cur_req = None    # the request being processed (dict from consult)
     req_by_ref = {}
+    req_queue = {}       # ref -> request dicts in consult order (an object may be submitted twice)
+
+    def start_req(ref):
+        q = req_queue.get(ref, [])
+        for r in q:
+            if not r.get("started"):
+                r["started"] = True
+                req_by_ref[ref] = r
+                return r
+        return req_by_ref.get(ref)
     phase = None
     cur_session = -1
     n_mk = len(markets)
@@ -154,12 +164,12 @@ def build(run):
                 tr.append("hookStepAfter %d %d" % (ev[2], ev[3]))
             elif typ == "order_before":
                 tr.append("hookOrderBefore %d %d" % (ev[2], ev[3]))
-                cur_req = req_by_ref.get(ev[2])
+                cur_req = start_req(ev[2])
             elif typ == "order_after":
                 tr.append("hookOrderAfter %d %d" % (orderlog_ref.get(id(ev[2]), -1), ev[3]))
             elif typ == "cancel_before":
                 tr.append("hookCancelBefore %d %d" % (ev[2], ev[3]))
-                cur_req = req_by_ref.get(ev[2])
+                cur_req = start_req(ev[2])
             elif typ == "cancel_after":
                 tr.append("hookCancelAfter %d %d" % (cancellog_ref.get(id(ev[2]), -1), ev[3]))
             elif typ == "execution_after":
@@ -179,7 +189,7 @@ def build(run):
             tr.append("consult %d %s" % (ev[1], b2s(ev[2])))
             reqs = [dict(r, accepted=False, fills=[], fills_none=False, called_exec=False) for r in ev[3]]
             for r in reqs:
-                req_by_ref[r["ref"]] = r
+                req_queue.setdefault(r["ref"], []).append(r)
             if cur is not None:
                 if ev[2]:
                     if cur_round is not None:
